@@ -149,3 +149,71 @@ inductive IsPath (t : Nat) : Obj → List Obj → Prop
   | here {o : Obj} : o.id = t → IsPath t o [o]
   | inside {o k : Obj} {p : List Obj} : k ∈ o.children → IsPath t k p → IsPath t o (p ++ [o])
 end Link
+
+namespace Link
+/-! ## the reference text: `fqn_name.split(".")`
+
+`splitDotsL` is Python's `str.split(".")` on the characters of the text (`"".split(".") == [""]`,
+`"a..b".split(".") == ["a", "", "b"]`); `joinDotsL` is `".".join`.  The specification of the
+split (Proofs/Link/FqnText.lean): it never returns `[]`, no part contains a dot, joining gives
+the text back, and it is the only list of dot-free parts that does. -/
+def splitDotsL : List Char → List (List Char)
+  | [] => [[]]
+  | c :: cs =>
+    if c = '.' then [] :: splitDotsL cs
+    else
+      match splitDotsL cs with
+      | [] => [[c]]
+      | w :: ws => (c :: w) :: ws
+
+def joinDotsL : List (List Char) → List Char
+  | [] => []
+  | [w] => w
+  | w :: w' :: ws => w ++ '.' :: joinDotsL (w' :: ws)
+
+def splitDots (s : String) : List String := (splitDotsL s.toList).map String.ofList
+
+/-- the provider called with the reference *text* `obj_ref.obj_name` -/
+def fqnText (conf : Obj → Bool) (root : Obj) (cur : Nat) (text : String) : Option Obj :=
+  fqn conf root cur (splitDots text)
+
+/-! ## pinned and repaired `find_obj` over one heap view, differing in the guard only
+
+`findObjHeap guard` visits every entry of `parent.__dict__` — containment attributes,
+reference attributes (dereferenced through `deref`) and finally `parent` (`parentOf`).
+With `guard = true` (the repair: `a in tx_attrs and tx_attrs[a].cont`) reference attributes
+(`cont == False`) and `parent` (not in `_tx_attrs`) are skipped; with `guard = false` it is
+`findObjPinned`. -/
+def findAttrsHeap (guard : Bool) (deref : Nat → Option Obj) : List Attr → String → Option Obj
+  | [], _ => none
+  | .cont ks :: as, n =>
+    match ks.find? (nameIs n) with
+    | some o => some o
+    | none => findAttrsHeap guard deref as n
+  | .ref ts :: as, n =>
+    if guard then findAttrsHeap guard deref as n
+    else
+      match (ts.filterMap deref).find? (nameIs n) with
+      | some o => some o
+      | none => findAttrsHeap guard deref as n
+  | .prim :: as, n => findAttrsHeap guard deref as n
+
+def findObjHeap (guard : Bool) (deref : Nat → Option Obj) (parentOf : Nat → Option Obj) (p : Obj)
+    (n : String) : Option Obj :=
+  match findAttrsHeap guard deref p.attrs n with
+  | some o => some o
+  | none =>
+    if guard then none
+    else
+      match parentOf p.id with
+      | some q => if nameIs n q then some q else none
+      | none => none
+
+def walkHeap (guard : Bool) (deref : Nat → Option Obj) (parentOf : Nat → Option Obj) :
+    Obj → List String → Option Obj
+  | p, [] => some p
+  | p, n :: ns =>
+    match findObjHeap guard deref parentOf p n with
+    | none => none
+    | some o => walkHeap guard deref parentOf o ns
+end Link
